@@ -58,6 +58,9 @@ LEVEL_TEXT = ("Lean theorems: (1) default propagator with the sgp4 package as a 
               "the binding logic (orbit setter, _state, _bound_to) as a state machine over a MUTABLE orbit: after any history of in-place edits and propagations the reply is "
               "that of a fresh propagator on the values the orbit holds now (history_reply_eq_fresh), the statements of Sgp4 being read from the AST (any other shape or member "
               "is refused) and 'every input Tle.from_orbit reads is a label or is covered by the key _state compares' decided on sets regenerated from sgp4.py and tle.py. "
+              "(2o) the native propagator as OBJECTS: a state machine whose state is per instance; after any interleaving of bindings, re-bindings, copies and propagations of any number of "
+              "instances the reply of an instance is that of a fresh instance bound to the same orbit (native_reply_eq_fresh), given that the Init() object is created by the setter — "
+              "read from the AST on every run (native_init_per_instance; with a class-level Init the model is the shared-storage machine and the theorem does not apply). "
               "(2) native Sgp4Beta translated from its Python AST on every run, cut into 12 pieces: orthonormal frame, Kepler loop exit => Newton correction "
               "< 1e-12 for every fuel, WGS-72 constants, a0 = (k_e/n0'')^(2/3). (3) native model = reference theory over R, piece by piece, against a "
               "hand-written transcription of python-sgp4's _initl/sgp4init/sgp4 near-Earth path (templates/Sgp4Ref.tpl) that is itself compared with the "
@@ -102,6 +105,8 @@ NOT_COVERED = [
     "the generators reach loop exhaustion (10 passes) only outside the property's domain (tallied)",
     "the SGP4/SDP4 theory itself (inside the library parameter `lib`), including deep-space resonance and lunar-solar terms and the reference's simplified drag model below 220 km (the native model has no such switch; outside the clause)",
     "objects whose drag polynomial changes the semi-major axis by more than 2 % (oracle) / 20 % (correspondences) within the interval are excluded from the native comparisons (tallied)",
+    "Sgp4Beta used through Orbit.propagate (orbit.propagator = Sgp4Beta()): not usable at all in the current source (its `orbit` getter reads `_orbit`, which its setter never sets: AttributeError) — "
+    "the native clause is observed at Sgp4Beta.propagate, as the property says",
     "the compositions sgp4Prop / refSgp4 (which output of one piece is handed to the next) are generated / hand-written plumbing: tied by the correspondences, composed in a theorem only for the initialisation (beta_init_reference)",
     "history_reply_eq_fresh takes 'the compared key determines the library's answer for the regenerated text' as hypothesis: its syntactic side is bind_key_covers_regen (read-sets from the AST), "
     "that label fields do not move the state and that Tle.from_orbit / StateVector attribute writes behave as read is the history oracle's (sources x edited inputs x propagations, expected = python-sgp4 on "
@@ -120,7 +125,11 @@ RULE = ("correspondence: (a) 700/20000 edge datetimes 1957-2056 x 5 labels throu
         "observed by a line tracer on the real code) or the correspondence fails; (d) the same streams: reference spec vs python-sgp4 (record fields, mean elements, state), rtol 1e-9. "
         "(e) 240/1920 histories (12 ways of obtaining the orbit x 15 edited inputs singly, then combinations; before/after a first propagation; edit back) on real Orbit/Sgp4 objects with "
         "twoline2rv intercepted, against the Lean state machine: the setter runs exactly when the model says and the lines handed over are those the harness writes from the values of the version the model names. "
-        "non-trivial = offset != 0; distinct = distinct request. oracle: the same histories end to end (state vs python-sgp4 on harness-written lines of the current values, |v| x 50 us), pinned corpus, 4/24 rounds of the directed generator, 220/2500 catalogue-like TLEs: default propagator vs sgp4 called directly on the "
+        "(f) 60/1200 histories of 2-3 Sgp4Beta instances and 2-3 orbits alive at once (bind, re-bind, shallow copy, propagate, interleaved) against Sgp4Inst.runSeq: per propagation the "
+        "model names the orbit whose elements and the orbit whose cached constants are used, the real reply must be bit for bit that combination. "
+        "non-trivial = offset != 0; distinct = distinct request. oracle: the native instance histories (reply = fresh instance bit for bit, = reference within 1 cm), epoch years over the whole "
+        "two-digit field (57-68, 69-99, 00-56) with orbit.date == epoch parsed independently (pivot 57) and requests relative to the orbit (timedelta, orb.date + dt, iter) compared with the "
+        "reference at the harness's own epoch + offset, the same histories end to end (state vs python-sgp4 on harness-written lines of the current values, |v| x 50 us), pinned corpus, 4/24 rounds of the directed generator, 220/2500 catalogue-like TLEs: default propagator vs sgp4 called directly on the "
         "original lines and independently computed UTC fields (|v| x 50 us), timedelta argument, label independence (UTC/TAI/TT/GPS/UT1), 3-line TLEs, native vs reference theory 1 cm in the full "
         "near-Earth domain; branch distribution of the native code, the wrapper and the reference record in the evidence (keys branch*)")
 
